@@ -145,14 +145,14 @@ class ExprMixin:
     def pure_eval(self, node, fr, assumption):
         """evaluate node under an extra assumption without forking; None if that is impossible"""
         ex = self.ex
-        ex.solver.push()
+        pass
         npc = len(ex.st.pc)
         neff = len(ex.st.effects)
         nobl = len(self.obligations)
         ex.nofork += 1
         snap = self.mutation_counter
+        facts = dict(ex.st.cls_facts)
         try:
-            ex.solver.add(assumption)
             ex.st.pc.append(assumption)
             v = self.eval(node, fr)
             if len(ex.st.effects) != neff or self.mutation_counter != snap:
@@ -165,7 +165,7 @@ class ExprMixin:
         finally:
             ex.nofork -= 1
             del ex.st.pc[npc:]
-            ex.solver.pop()
+            ex.st.cls_facts = facts      # class knowledge gained under the assumption ends with it
 
     def eval_BoolOp(self, node, fr):
         is_and = isinstance(node.op, ast.And)
@@ -223,10 +223,10 @@ class ExprMixin:
     def wrap_bool(self, r):
         if isinstance(r, bool):
             return r
-        r = z3.simplify(r)
-        if z3.is_true(r):
+        rs = z3.simplify(r)
+        if z3.is_true(rs):
             return True
-        if z3.is_false(r):
+        if z3.is_false(rs):
             return False
         return SV(r, TBool())
 
@@ -526,7 +526,7 @@ class ExprMixin:
             l = norm(lo, z3.IntVal(0))
             h = norm(hi, n)
             ln = z3.If(h - l < 0, z3.IntVal(0), h - l)
-            return SV(z3.simplify(z3.SubSeq(obj.term, l, ln)) if not isinstance(obj.ty, TStr)
+            return SV(z3.SubSeq(obj.term, l, ln) if not isinstance(obj.ty, TStr)
                       else z3.SubString(obj.term, l, ln), obj.ty)
         if isinstance(obj, (tuple, list, str)) and (lo is None or isinstance(lo, int)) and (hi is None or isinstance(hi, int)):
             return obj[lo:hi]
